@@ -196,17 +196,23 @@ def check(ctx):
     if fh is None or fc is None:
         raise AnalysisError("Parameter._hash_args / __call__ not found")
     params = [a.arg for a in fh.node.args.args[1:]]
+    # may-reach analysis (pvs/flows.py): every parameter and the keyword arguments influence the returned key, however the
+    # function is arranged (helpers, comprehensions over (x, y, z), temporaries)
+    from ..flows import reaching_labels
+
+    def key_source(x):
+        if isinstance(x, ast.Name) and isinstance(x.ctx, ast.Load) and x.id in params:
+            return x.id
+        if isinstance(x, ast.Attribute) and norm(x) == "self.kwargs":
+            return "self.kwargs"
+        return None
+    reach = reaching_labels(fh.node, key_source).get("<return>", set())
     rets = [n for n in own_nodes(fh.node) if isinstance(n, ast.Return)]
-    used = {}
-    if len(rets) == 1:
-        # a helper applied to a parameter counts as a use of that parameter
-        for n in ast.walk(rets[0].value):
-            if isinstance(n, ast.Name) and n.id in params:
-                used[n.id] = used.get(n.id, 0) + 1
-        uses_kwargs = "self.kwargs" in norm(rets[0].value)
-    else:
-        uses_kwargs = False
+    used = {p_: 1 for p_ in params if p_ in reach}
+    uses_kwargs = "self.kwargs" in reach
     missing = [p_ for p_ in params if p_ not in used]
+    if len(rets) != 1:
+        rets = rets[:1] or [None]
     ctx.ob("R16.8", "the cache key depends on every call argument (x, y, z, t) and on the keyword arguments", not missing and uses_kwargs
            and len(rets) == 1, detail={"parameters": params, "used": used, "kwargs": uses_kwargs}, where=fh.fq,
            construct="_hash_args coverage", loc=loc(fh, fh.node),
